@@ -167,7 +167,7 @@ def oracle(A, E, o):
 # generators
 # ---------------------------------------------------------------------------
 
-LINES = ['a', 'b', 'a b', ' a', 'a ', 'x1', 'x22', 'id=7 ok', 'id=42 ok', 'skip me', 'é', '']
+LINES = ['a', 'b', 'a b', ' a', 'a ', 'x1', 'x22', 'id=7 ok', 'id=42 ok', 'skip me', 'a x1', 'b x1', 'é', '']
 
 
 def drop_first(lines):
@@ -355,7 +355,7 @@ def _work(args):
 
 def gen_cases(tier, seed):
     rnd = random.Random(seed)
-    pool = LINES if tier != 'quick' else LINES[:10]
+    pool = LINES if tier != 'quick' else LINES[:12]
     max_len = 3
     cases = []
     bases = []
